@@ -32,15 +32,6 @@ func run(c *hx.Ctx) {
 
 // ---------------------------------------------------------------- keys
 
-type rngReader struct{ c *hx.Ctx }
-
-func (r rngReader) Read(p []byte) (int, error) {
-	for i := range p {
-		p[i] = byte(r.c.Rng.Intn(256))
-	}
-	return len(p), nil
-}
-
 func genKeys(c *hx.Ctx, n int) []crypto.PrivKey {
 	out := make([]crypto.PrivKey, n)
 	for i := range out {
@@ -150,7 +141,11 @@ func c13(c *hx.Ctx) {
 		if err != nil {
 			return nil, err
 		}
-		d, _, err := peer.DeriveEd25519Key(string(k.ctx), k.salt, pk)
+		var d crypto.PrivKey
+		panicked, pv := hx.Catch(func() { d, _, err = peer.DeriveEd25519Key(string(k.ctx), k.salt, pk) })
+		if panicked {
+			return nil, fmt.Errorf("panic: %v", pv)
+		}
 		if err != nil {
 			return nil, err
 		}
@@ -168,7 +163,14 @@ func c13(c *hx.Ctx) {
 		if depth <= 0 || c.Rng.Intn(3) != 0 {
 			return &keyT{atom: c.Rng.Intn(len(keys))}
 		}
-		return &keyT{ctx: pick(ctxs), salt: pick(salts), parent: randKey(depth - 1)}
+		k := &keyT{ctx: pick(ctxs), salt: pick(salts), parent: randKey(depth - 1)}
+		if _, err := resolve(k); err != nil {
+			// the implementation cannot even produce this input key: report it, use the parent instead
+			c.Failf("c13-derive-ed25519-fails-on-valid-key", map[string]any{"kind": "DeriveEd25519Key", "context": string(k.ctx), "context_hex": hx.Hex(k.ctx), "salt_hex": hx.Hex(k.salt), "key": k.parent.desc()},
+				"DeriveEd25519Key failed on a valid Ed25519 key: %v", err)
+			return k.parent
+		}
+		return k
 	}
 	randPriv := func() privIn {
 		switch c.Rng.Intn(14) {
@@ -192,12 +194,57 @@ func c13(c *hx.Ctx) {
 		}
 		return k
 	}
+	calls := 0
 	derive := func(ctx, salt []byte, p privIn, n int) dres {
 		var r dres
-		out := make([]byte, n)
+		calls++
+		// every other call: out and salt are sub-slices of larger buffers (spare capacity, sentinels around)
+		whole := bytes.Repeat([]byte{0xA5}, n+16)
+		out := whole[5 : 5+n]
+		if calls%2 == 0 {
+			out = make([]byte, n)
+		}
+		saltArg := salt
+		var saltWhole []byte
+		if salt != nil && calls%2 == 1 {
+			saltWhole = bytes.Repeat([]byte{0x5A}, len(salt)+9)
+			copy(saltWhole[4:], salt)
+			saltArg = saltWhole[4 : 4+len(salt)]
+		} else if salt != nil {
+			saltArg = append([]byte{}, salt...)
+		}
 		var err error
 		pk := realPriv(p)
-		panicked, pv := hx.Catch(func() { err = peer.DeriveKey(string(ctx), salt, pk, out) })
+		var rawBefore []byte
+		if pk != nil {
+			rawBefore, _ = pk.Raw()
+		}
+		panicked, pv := hx.Catch(func() { err = peer.DeriveKey(string(ctx), saltArg, pk, out) })
+		ad := map[string]any{"kind": "DeriveKey", "context_hex": hx.Hex(ctx), "salt_hex": hx.Hex(salt), "key": p.desc(), "len": n}
+		if !bytes.Equal(saltArg, salt) {
+			c.Failf("c13-argument-modified", ad, "DeriveKey modified its salt argument")
+		}
+		if saltWhole != nil {
+			for i, b := range saltWhole {
+				if (i < 4 || i >= 4+len(salt)) && b != 0x5A {
+					c.Failf("c13-argument-modified", ad, "DeriveKey wrote outside the salt slice")
+					break
+				}
+			}
+		}
+		if pk != nil {
+			if rawAfter, _ := pk.Raw(); !bytes.Equal(rawBefore, rawAfter) {
+				c.Failf("c13-argument-modified", ad, "DeriveKey modified the private key it was given")
+			}
+		}
+		if calls%2 == 1 {
+			for i, b := range whole {
+				if (i < 5 || i >= 5+n) && b != 0xA5 {
+					c.Failf("c13-writes-outside-out", ad, "DeriveKey wrote outside the out slice (spare capacity)")
+					break
+				}
+			}
+		}
 		if panicked {
 			return dres{cls: 9, pv: pv}
 		}
@@ -338,7 +385,23 @@ func c13(c *hx.Ctx) {
 			var pub crypto.PubKey
 			var err error
 			pk := realPriv(x.p)
-			panicked, pv := hx.Catch(func() { priv, pub, err = peer.DeriveEd25519Key(string(x.ctx), x.salt, pk) })
+			saltArg := x.salt
+			if x.salt != nil {
+				saltArg = append(make([]byte, 0, len(x.salt)+8), x.salt...)
+			}
+			var rawBefore []byte
+			if pk != nil {
+				rawBefore, _ = pk.Raw()
+			}
+			panicked, pv := hx.Catch(func() { priv, pub, err = peer.DeriveEd25519Key(string(x.ctx), saltArg, pk) })
+			if !bytes.Equal(saltArg, x.salt) {
+				c.Failf("c13-argument-modified", map[string]any{"kind": "DeriveEd25519Key", "salt_hex": hx.Hex(x.salt)}, "DeriveEd25519Key modified its salt argument")
+			}
+			if pk != nil {
+				if rawAfter, _ := pk.Raw(); !bytes.Equal(rawBefore, rawAfter) {
+					c.Failf("c13-argument-modified", map[string]any{"kind": "DeriveEd25519Key", "key": x.p.desc()}, "DeriveEd25519Key modified the private key it was given")
+				}
+			}
 			if panicked {
 				return edres{cls: 9, pv: pv}
 			}
@@ -446,6 +509,33 @@ func c14(c *hx.Ctx) {
 		}
 		if !bytes.Equal(in, ge) {
 			c.Failf("c14-input-mutated", desc, "the input slice was modified")
+		}
+		if !panicked && !panicked2 {
+			// same bytes inside a larger buffer (spare capacity), called twice
+			whole := bytes.Repeat([]byte{0xA5}, len(ge)+16)
+			copy(whole[5:], ge)
+			sub := whole[5 : 5+len(ge)]
+			for rep := 0; rep < 2; rep++ {
+				var lo2, valid2 bool
+				var conv2 []byte
+				p3, _ := hx.Catch(func() {
+					lo2 = extra25519.IsEdLowOrder(sub)
+					conv2, valid2 = extra25519.PublicKeyToCurve25519(ed25519.PublicKey(sub))
+				})
+				c.Eval()
+				if p3 || lo2 != lo || valid2 != valid || !bytes.Equal(conv2, conv) {
+					c.Failf("c14-repeated-call-differs", desc2, "repeating the calls on the same bytes in a buffer with spare capacity gave a different result")
+				}
+			}
+			for i, b := range whole {
+				if (i < 5 || i >= 5+len(ge)) && b != 0xA5 {
+					c.Failf("c14-input-mutated", desc2, "a byte outside the input slice was modified")
+					break
+				}
+			}
+			if !bytes.Equal(sub, ge) {
+				c.Failf("c14-input-mutated", desc2, "the input slice was modified")
+			}
 		}
 		// ---- direct oracle (property text), 32-byte strings ----
 		if len(ge) != 32 {
